@@ -50,6 +50,14 @@ LOOKUP = {
     "<smallvec::SmallVec<A> as core::ops::deref::Deref>::deref", "<smallvec::SmallVec<A> as core::ops::deref::DerefMut>::deref_mut",
     "core::iter::traits::collect::IntoIterator::into_iter",
     "core::default::Default::default", "core::mem::take", "core::mem::replace",
+    # order-preserving iterator adaptors / consumers that only look
+    "core::iter::traits::iterator::Iterator::enumerate", "core::iter::traits::iterator::Iterator::next",
+    "core::iter::traits::iterator::Iterator::map", "core::iter::traits::iterator::Iterator::filter",
+    "core::iter::traits::iterator::Iterator::filter_map", "core::iter::traits::iterator::Iterator::by_ref",
+    "core::iter::traits::iterator::Iterator::peekable", "core::iter::traits::iterator::Iterator::cloned",
+    "core::iter::traits::iterator::Iterator::copied", "core::iter::traits::iterator::Iterator::any",
+    "core::iter::traits::iterator::Iterator::all", "core::iter::traits::iterator::Iterator::count",
+    "core::iter::traits::iterator::Iterator::for_each", "core::cmp::PartialEq::eq", "core::cmp::PartialEq::ne",
 }
 WHOLE_VALUE_MOVE = {"core::mem::take", "core::mem::replace", "core::mem::swap", "core::option::Option::take",
                     "alloc::vec::Vec::new", "alloc::collections::vec_deque::VecDeque::new"}
